@@ -61,7 +61,7 @@ def spectrum(rng, d, pattern):
 def required_cells(tier):
     return {"bath:rotated-degenerate": 20, "bath_invariant": 200,
             "method:tempo": 3, "method:pt": 3, "method:meanfield": 2,
-            "meanfield:two-systems": 2, "pt:reimported": 2,
+            "meanfield:two-systems": 2, "pt:reimported": 2, "pt:used-before": 3,
             "cov:degenerate": 3, "guessed-parameters": 4,
             "initial-state:non-contiguous": 6,
             "cov:nearly-diagonal:pt": 2,
@@ -221,6 +221,11 @@ def run_cov(case):
             rho_r = np.ascontiguousarray(rho_r.T).T
         if lay:
             cells_extra.append("initial-state:non-contiguous")
+        if method == "pt" and (i // 3) % 2 == 0:
+            # the rotated process tensor has served another propagation
+            # before the judged one
+            kwr["used_before"] = True
+            cells_extra.append("pt:used-before")
         da = run(s_a, oper, corr, rho0, start, dt, nsteps, params, unique)
         db = run(s_b, oper_r, corr, rho_r, start, dt, nsteps, params,
                  unique, **kwr)
